@@ -490,6 +490,29 @@ func c04Run(c *core.Ctx, idx int) {
 		})
 		c.Count("trees.with-operator-less-conditions")
 	}
+	if r.Chance(1, 25) {
+		// a stack that merely LOOKS like the serialised form of something else: three elements, a string, an operator
+		// constant and a value (a Condition row without its label); two- and four-element cousins
+		var stacks []*TNode
+		tree.Walk(func(n *TNode) {
+			if n.T == "stack" && n.Cap == 0 {
+				stacks = append(stacks, n)
+			}
+		})
+		if len(stacks) > 0 {
+			w := stacks[r.Intn(len(stacks))]
+			look := &TNode{T: "stack", Kind: Kinds[r.Intn(4)], Kids: []*TNode{{T: "leaf", Leaf: &LeafDesc{Tag: "str", S: []string{"cn", "CONDITION", "kw"}[r.Intn(3)]}},
+				{T: "leaf", Leaf: &LeafDesc{Tag: "cmp-op", I: int64(1 + r.Intn(6))}}, {T: "leaf", Leaf: c04Leaf(r)}}}
+			switch r.Intn(4) {
+			case 0:
+				look.Kids = look.Kids[:2]
+			case 1:
+				look.Kids = append(look.Kids, &TNode{T: "leaf", Leaf: &LeafDesc{Tag: "str", S: "fourth"}})
+			}
+			w.Kids = append(w.Kids, look)
+			c.Count("trees.with-row-lookalike-stacks")
+		}
+	}
 	if sp := core.NewRng(core.Mix(uint64(c.Seed)+0x5b1ce, uint64(idx))); sp.Chance(1, 6) {
 		// (own PRNG stream, so that the rest of the case is what it was without this step)
 		if did := Spice(sp, tree, sp.Chance(1, 2), sp.Chance(1, 2), sp.Chance(1, 2)); did != "" {
